@@ -42,9 +42,13 @@ def main():
             hashes = collections.defaultdict(set)
             for p, out, gmp, rep in procs:
                 p.wait()
+                nth = collections.Counter()
                 for line in open(out):
                     r = json.loads(line)
-                    hashes[r["seed"]].add((r["log_hash"], r["sched_hash"], r["steps"]))
+                    # a sweep (C03) emits many results under one seed: compare them position by position
+                    k = (r["seed"], nth[r["seed"]])
+                    nth[r["seed"]] += 1
+                    hashes[k].add((r["log_hash"], r["sched_hash"], r["steps"]))
             nd = [s for s, h in hashes.items() if len(h) != 1]
             total += len(hashes)
             bad += len(nd)
